@@ -176,6 +176,9 @@ BOOLEAN__xer_body_decode(const asn_TYPE_descriptor_t *td, void *sptr,
 			return XPBD_BROKEN_ENCODING;
 		}
 		return XPBD_BODY_CONSUMED;
+	} else if(chunk_size == 0) {
+		/* White space around the "<true/>" or "<false/>" */
+		return XPBD_NOT_BODY_IGNORE;
 	} else {
 		return XPBD_BROKEN_ENCODING;
 	}
